@@ -7,6 +7,7 @@
   code is checked by the correspondence (object-array magnitudes).
 -/
 import PintModel.Model.Quantity
+import PintModel.Proofs.QtyLemmas
 
 namespace Pint.Props.C03
 open Pint Pint.Registry
@@ -43,5 +44,98 @@ theorem C03_neg_neg (a : Qty) : Registry.neg (Registry.neg a) = a := by
   | mk mag units => simp [Registry.neg, Rat.neg_neg]
 
 theorem C03_neg_units (a : Qty) : (Registry.neg a).units = a.units ∧ (Registry.abs a).units = a.units := ⟨rfl, rfl⟩
+
+/-! ### covariance: the result depends only on the operands' physical value
+
+`Good R S q f ru d`: `q`'s units are registered multiplicative units with integer exponents
+inside the closed set `S`, root expansion `(f, ru)` and dimensionality `d` are defined.
+`rootMag q f = q.mag * f` is the physical magnitude in root units.  Hypotheses are shown
+satisfiable on the bundled registry in `Proofs/QtyExamples.lean`. -/
+
+section
+variable {R : Registry} {S : String → Prop} (hW : R.WFintOn S) (m : Mode)
+include hW
+variable {a a' b b' : Qty} {fa fa' fb fb' : Rat} {ua ua' ub ub' da da' db db' : UC}
+
+/-- + and − : the sum in root units is the sum of the operands in root units, whatever units
+    the operands are written in -/
+theorem C03_add_value (op : AddOp) (ha : Good R S a fa ua da) (hb : Good R S b fb ub db)
+    (he : da.beq db = true) :
+    ∃ c fc, R.addSub m op a (.q b) = .ok c ∧
+      (c.units = a.units ∧ fc = fa ∨ c.units = b.units ∧ fc = fb) ∧
+      c.mag * fc = op.app (a.mag * fa) (b.mag * fb) :=
+  add_phys_total hW m op ha hb he
+
+theorem C03_cov_add (op : AddOp) {c c' : Qty}
+    (ha : Good R S a fa ua da) (ha' : Good R S a' fa' ua' da')
+    (hb : Good R S b fb ub db) (hb' : Good R S b' fb' ub' db')
+    (va : rootMag a fa = rootMag a' fa') (vb : rootMag b fb = rootMag b' fb')
+    (hc : R.addSub m op a (.q b) = .ok c) (hc' : R.addSub m op a' (.q b') = .ok c') :
+    ∃ fc fc', (c.units = a.units ∧ fc = fa ∨ c.units = b.units ∧ fc = fb) ∧
+      (c'.units = a'.units ∧ fc' = fa' ∨ c'.units = b'.units ∧ fc' = fb') ∧
+      rootMag c fc = rootMag c' fc' :=
+  add_cov hW m op ha ha' hb hb' va vb hc hc'
+
+/-- success or failure of + / − does not depend on the units either -/
+theorem C03_cov_add_ok (op : AddOp)
+    (ha : Good R S a fa ua da) (ha' : Good R S a' fa' ua' da')
+    (hb : Good R S b fb ub db) (hb' : Good R S b' fb' ub' db')
+    (ea : da.beq da' = true) (eb : db.beq db' = true) :
+    (∃ c, R.addSub m op a (.q b) = .ok c) ↔ (∃ c', R.addSub m op a' (.q b') = .ok c') :=
+  add_cov_ok hW m op ha ha' hb hb' ea eb
+
+theorem C03_cov_mul (ha : Good R S a fa ua da) (ha' : Good R S a' fa' ua' da')
+    (hb : Good R S b fb ub db) (hb' : Good R S b' fb' ub' db')
+    (va : rootMag a fa = rootMag a' fa') (vb : rootMag b fb = rootMag b' fb') :
+    ∃ c c' fc fc' uc uc', R.mulDiv m .mul a (.q b) = .ok c ∧ R.mulDiv m .mul a' (.q b') = .ok c' ∧
+      R.getRootUnits c.units = .ok (fc, uc) ∧ R.getRootUnits c'.units = .ok (fc', uc') ∧
+      rootMag c fc = rootMag c' fc' :=
+  mul_cov hW m ha ha' hb hb' va vb
+
+theorem C03_cov_div (ha : Good R S a fa ua da) (ha' : Good R S a' fa' ua' da')
+    (hb : Good R S b fb ub db) (hb' : Good R S b' fb' ub' db')
+    (va : rootMag a fa = rootMag a' fa') (vb : rootMag b fb = rootMag b' fb') (hz : b.mag ≠ 0) :
+    ∃ c c' fc fc' uc uc', R.mulDiv m .div a (.q b) = .ok c ∧ R.mulDiv m .div a' (.q b') = .ok c' ∧
+      R.getRootUnits c.units = .ok (fc, uc) ∧ R.getRootUnits c'.units = .ok (fc', uc') ∧
+      rootMag c fc = rootMag c' fc' :=
+  div_cov hW m ha ha' hb hb' va vb hz
+
+/-- floor division: the same number (or the same error) in any units -/
+theorem C03_cov_floordiv (ha : Good R S a fa ua da) (ha' : Good R S a' fa' ua' da')
+    (hb : Good R S b fb ub db) (hb' : Good R S b' fb' ub' db')
+    (ea : da.beq da' = true) (eb : db.beq db' = true)
+    (va : rootMag a fa = rootMag a' fa') (vb : rootMag b fb = rootMag b' fb') :
+    R.floordiv m a (.q b) = R.floordiv m a' (.q b') :=
+  floordiv_cov hW m ha ha' hb hb' ea eb va vb
+
+theorem C03_cov_mod (ha : Good R S a fa ua da) (ha' : Good R S a' fa' ua' da')
+    (hb : Good R S b fb ub db) (hb' : Good R S b' fb' ub' db')
+    (ea : da.beq da' = true) (eb : db.beq db' = true)
+    (va : rootMag a fa = rootMag a' fa') (vb : rootMag b fb = rootMag b' fb')
+    (he : da.beq db = true) (hz : b.mag ≠ 0) :
+    ∃ c c', R.mod m a (.q b) = .ok c ∧ R.mod m a' (.q b') = .ok c' ∧
+      c.units = a.units ∧ c'.units = a'.units ∧ rootMag c fa = rootMag c' fa' :=
+  mod_cov hW m ha ha' hb hb' ea eb va vb he hz
+
+/-- ordering (positively scaled units): the same truth value or the same error in any units -/
+theorem C03_cov_compare (op : CmpOp)
+    (ha : Good R S a fa ua da) (ha' : Good R S a' fa' ua' da')
+    (hb : Good R S b fb ub db) (hb' : Good R S b' fb' ub' db')
+    (ea : da.beq da' = true) (eb : db.beq db' = true)
+    (va : rootMag a fa = rootMag a' fa') (vb : rootMag b fb = rootMag b' fb')
+    (hpos : 0 < fa) (hpos' : 0 < fa')
+    (hra : RootGood R S ua da) (hrb : RootGood R S ub db)
+    (hra' : RootGood R S ua' da') (hrb' : RootGood R S ub' db') :
+    R.compare m op a (.q b) = R.compare m op a' (.q b') :=
+  compare_cov hW m op ha ha' hb hb' ea eb va vb hpos hpos' hra hrb hra' hrb'
+
+theorem C03_cov_eq (ha : Good R S a fa ua da) (ha' : Good R S a' fa' ua' da')
+    (hb : Good R S b fb ub db) (hb' : Good R S b' fb' ub' db')
+    (ea : da.beq da' = true) (eb : db.beq db' = true)
+    (va : rootMag a fa = rootMag a' fa') (vb : rootMag b fb = rootMag b' fb') :
+    R.qeq m a (.q b) = R.qeq m a' (.q b') :=
+  eq_cov hW m ha ha' hb hb' ea eb va vb
+
+end
 
 end Pint.Props.C03
